@@ -501,6 +501,16 @@ def analyse(ctx, i, found, exprs, cases, fq_exprs, fq_cases):
                  'source path summing to max_length=%r (sum %r)' % (fw.name, exp_max, tot),
                  {'first_wire': fw.name, 'path': net_strs(p), 'expected_sum': exp_max})
             break
+    # what cp_limit does (C17_critical_path_is_prefix): a prefix of the unlimited enumeration,
+    # everything when the limit was not reached, at least cp_limit paths when it was
+    full, _ = quiet(ta.critical_path, print_cp=False, cp_limit=10 ** 9)
+    fl = [(wid[fw], [nix[n] for n in p]) for fw, p in full]
+    if impl_cp != fl[:len(impl_cp)] or (limit_hit and len(impl_cp) < cp_limit) \
+            or (not limit_hit and impl_cp != fl):
+        viol('critical_path:limit-prefix', 'critical_path(cp_limit=%d) is not the expected prefix of the '
+             'unlimited enumeration (%d of %d returned, limit message printed: %s)'
+             % (cp_limit, len(impl_cp), len(fl), limit_hit), {'cp_limit': cp_limit, 'got': impl_cp, 'unlimited': fl})
+    ctx.count('paths returned beyond cp_limit', max(0, len(impl_cp) - cp_limit) if limit_hit else 'limit not reached')
     if not limit_hit and len(cps) < cp_limit:
         try:
             allmax = []
